@@ -13,12 +13,13 @@ func init() { registry["C15"] = propC15 }
 func propC15() *Property {
 	return &Property{
 		ID:          "C15",
-		Explanation: "Structural clauses of the rendering property. Decided: (R1) in every markup implementation the text returned by the function that Render(width) calls is, up to trimming, the result of ansi.Wrap / ansi.DumbWrap with exactly the requested width — the three implementations of one interface must agree on this final wrap; (R2) the render cache is consulted only for an equal width and is overwritten together with its width: Render returns the cached text only on the cachedWidth == width edge, every other return stores the freshly rendered text and the width it was rendered at, constructors initialise the pair consistently, nothing else writes the pair; (R3) rendering is a function of content and width: the render functions (transitively) write no field, no package-level variable and nothing reachable from their inputs, and read no package-level state other than the immutable configuration and compiled regexps. That ansi.Wrap and ansi.DumbWrap honour their width is decided under C13.R1/R2. NOT decided: the content of the rendering.",
+		Explanation: "Structural clauses of the rendering property. Decided: (R1) in every markup implementation the text returned by the function that Render(width) calls is, up to trimming, the result of ansi.Wrap / ansi.DumbWrap with exactly the requested width — the three implementations of one interface must agree on this final wrap; (R2) the render cache is consulted only for an equal width and is overwritten together with its width: Render returns the cached text only on the cachedWidth == width edge, every other return stores the freshly rendered text and the width it was rendered at, constructors initialise the pair consistently, nothing else writes the pair; (R3) rendering is a function of content and width: the render functions (transitively) write no field, no package-level variable and nothing reachable from their inputs, and read no package-level state other than the immutable configuration and compiled regexps. (R4) the wrap functions honour their width: by inference of an inductive loop invariant (engine E9, the instances of C13.R1 and C13.R2) no line completed by ansi.Wrap or ansi.DumbWrap has more visible characters than the width, for every text and width >= 1 — so with R1 every rendering fits the width it was asked for. NOT decided: the content of the rendering.",
 		Assumptions: []string{"config.Parsed is immutable after start-up (C08.R6)"},
 		Rules: []Rule{
 			{ID: "C15.R1", Title: "final wrap with the requested width in every renderer", Floor: 3, Run: c15R1},
 			{ID: "C15.R2", Title: "cache keyed by and stored with the width", Floor: 5, Run: c15R2},
 			{ID: "C15.R3", Title: "rendering has no side effects and no hidden inputs", Floor: 3, Run: c15R3},
+			{ID: "C15.R4", Title: "the final wrap honours its width: no line completed by ansi.Wrap / ansi.DumbWrap is wider than the width (instances of C13.R1 and C13.R2)", Floor: 8, Run: func(c *Ctx) { c13Width(c, "Wrap"); c13Width(c, "DumbWrap") }},
 		},
 	}
 }
